@@ -6,7 +6,7 @@ from typing import Any, Dict, List, Optional, Tuple
 
 from ..kit import caller_ok, Case, Ctx, calls, calls_target, kw, loops, normal_paths, poly_of, product_worlds, rule, short, stores, table_check_cases
 from ..paths import Event, Path
-from ..terms import NONE, Term, key, strip_ver, substitute, subterms
+from ..terms import NONE, Term, canon_pred, key, strip_ver, substitute, subterms
 from .runner import ADD, CANCEL, EXEC, HO, IT, RUN, handling_blocks
 
 # (type, when) -> (trigger suffix, handler, argument name, time source over the trigger's parameter)
@@ -65,8 +65,14 @@ def r1(ctx: Ctx) -> None:
         slots = set()
         hcalls = set()
         for p in normal_paths(ctx.paths(q)):
-            for c, _, _ in p.conds:
-                for s in subterms(strip_ver(c)):
+            mentioned = [strip_ver(c) for c, _, _ in p.conds]
+            for e in p.walk_events(True):
+                if e.kind == "call":
+                    mentioned += [strip_ver(x) for x in ((e.recv,) if e.recv is not None else ()) + tuple(e.args) + tuple(v for _, v in e.kwargs)]
+                elif e.kind == "loop" and e.iter is not None:
+                    mentioned.append(strip_ver(e.iter))
+            for m in mentioned:
+                for s in subterms(m):
                     if s[0] == "sub" and key(s[1]) == "self.events_dict":
                         slots.add(s[2][1] if s[2][0] == "const" else key(s[2]))
             for l in loops(p):
@@ -76,7 +82,10 @@ def r1(ctx: Ctx) -> None:
                         if e.name.startswith("hooked_"):
                             ok = e.recv is not None and strip_ver(e.recv) == ("attr", el, "event") and key(kw(e, "simulator", 0) or NONE) == "self" and key(kw(e, arg, 1) or NONE) == tf.params[1]
                             hcalls.add((e.name, ok))
-        ctx.check(slots == {f"{t}_{w}"}, tf, tf.node, f"{q} reads the slot {t}_{w}", f"{t}_{w}", ", ".join(sorted(slots)))
+        if not slots:
+            ctx.unrec(tf, tf.node, f"{q} reads the slot {t}_{w}", "no read of self.events_dict[...] found on its paths")
+        else:
+            ctx.check(slots == {f"{t}_{w}"}, tf, tf.node, f"{q} reads the slot {t}_{w}", f"{t}_{w}", ", ".join(sorted(slots)))
         ctx.check(hcalls == {(handler, True)}, tf, tf.node, f"{q} invokes {handler}(simulator=self, {arg}=<occurrence>) on the hook's event", handler, str(sorted(hcalls)))
         ctx.check(ctx.program.lookup_method("EventABC", handler) is not None, tf, tf.node, f"EventABC declares {handler}", "method exists", "present" if ctx.program.lookup_method("EventABC", handler) else "missing")
     # no trigger without a row
@@ -88,18 +97,30 @@ def r1(ctx: Ctx) -> None:
 
 @rule("C13.R2", "each trigger selects hooks registered for all times plus those registered for the occurrence's time, calls each once, and market-step triggers apply the class/instance filter", "T6 + T7", floor=18)
 def r2(ctx: Ctx) -> None:
+    check_triggers(ctx, None)
+
+
+def check_triggers(ctx: Ctx, only) -> None:
+    """selection / filtering / exhaustive dispatch of the triggers of the given (type, when) rows (None = all)"""
     for (t, w), (suffix, handler, arg, tsrc) in ROWS.items():
+        if only is not None and (t, w) not in only:
+            continue
         q = f"Simulator._trigger_event_{suffix}"
         tf = ctx.func(q)
         slot = ("sub", ("attr", ("sym", "self"), "events_dict"), ("const", f"{t}_{w}"))
         seen_paths = 0
         for p in normal_paths(ctx.paths(q)):
             seen_paths += 1
+            early = [(l, bp) for l in loops(p) for bp in l.paths if bp.exit[0] not in ("fall", "continue")]
+            ctx.check(not early, tf, early[0][0].node if early else tf.node, f"{q}: every selected hook is examined (one hook's filter never cuts off the hooks after it)", "loop bodies always fall through or continue", "; ".join(f"{bp.exit[0]} under {bp.describe()[:80]}" for _, bp in early))
             none_in = [pol for c, pol, _ in p.conds if strip_ver(c)[0] == "cmp" and strip_ver(c)[1] == "in" and strip_ver(c)[2] == NONE and strip_ver(c)[3] == slot]
             time_in = [(strip_ver(c)[2], pol) for c, pol, _ in p.conds if strip_ver(c)[0] == "cmp" and strip_ver(c)[1] == "in" and strip_ver(c)[2] != NONE and strip_ver(c)[3] == slot]
             ok = len(none_in) == 1 and len(time_in) == 1
             if not ok:
-                ctx.violated(tf, tf.node, f"{q}: membership tests for the all-times and the timed bucket", "`None in hooks` and `time in hooks` each decided once", p.describe()[:200])
+                if not none_in and not time_in:
+                    ctx.unrec(tf, tf.node, f"{q}: selection of the all-times and the timed bucket", "buckets are not selected through `None in hooks` / `time in hooks`; this form of selection is not modelled")
+                else:
+                    ctx.violated(tf, tf.node, f"{q}: membership tests for the all-times and the timed bucket", "`None in hooks` and `time in hooks` each decided once", p.describe()[:200])
                 continue
             tt, tpol = time_in[0]
             ctx.check(poly_of(tt) == tsrc or key(tt) == tsrc, tf, tf.node, f"{q}: occurrence time", tsrc, poly_of(tt))
@@ -263,6 +284,40 @@ def r4(ctx: Ctx) -> None:
                     iter_ok = l.iter is not None and strip_ver(l.iter)[0] == "call" and key(strip_ver(l.iter)[1]) in ("set", "dict.fromkeys", "sorted")
                     ctx.check(guarded or iter_ok, f, a.node, "a hook enters the bucket of one time at most once (repeated times in its list do not repeat it)", "`if hook not in bucket: bucket.append(hook)` or iteration over distinct times", "guarded" if guarded else "unguarded append per listed time")
     ctx.require(n >= 2, "_add_event: registering paths not found")
+    # which times a hook is entered under: its own list when one is given (even an empty one), the all-times key otherwise
+    ht = ("attr", ("sym", "event_hook"), "time")
+    for p in ctx.paths(f.qualname):
+        if p.exit[0] == "raise" or not [e for e in p.walk_events() if e.kind == "call" and e.name == "append" and e.args and key(e.args[0]) == "event_hook"] and not loops(p):
+            continue
+        dec = []
+        for c, pol, _ in p.conds:
+            cc, cpol = canon_pred(strip_ver(c))
+            if ht in list(subterms(cc)):
+                dec.append((cc, cpol == pol))
+        if len(dec) != 1:
+            ctx.unrec(f, f.node, "one decision on whether the hook carries a time list", "`event_hook.time is None`", p.describe()[:200])
+            continue
+        cc, given_none = dec[0]
+        if not (cc[0] == "cmp" and cc[1] in ("is", "==") and {cc[2], cc[3]} == {ht, NONE}):
+            ctx.violated(f, f.node, "only a missing time list means `at all times` (an empty list means never)", "decision `event_hook.time is None`", short(cc))
+            continue
+        lp = [l for l in loops(p) if l.iter is not None and strip_ver(l.iter) == ht]
+
+        def bucket_keys(path: Path) -> List[Term]:
+            ks = []
+            for e in path.events:
+                if e.kind == "store" and e.attr is None and "events_dict" in key(strip_ver(e.base)):
+                    ks.append(strip_ver(e.index))
+                if e.kind == "call" and e.name == "append" and e.recv is not None and strip_ver(e.recv)[0] == "sub" and "events_dict" in key(strip_ver(e.recv)[1]):
+                    ks.append(strip_ver(e.recv)[2])
+            return ks
+
+        top = bucket_keys(p)
+        if given_none:
+            ctx.check(not lp and all(k == NONE for k in top), f, f.node, "a hook without a time list is entered under the all-times key only", "events_dict[name][None]", f"keys touched: {[short(k) for k in top]}, loops over the list: {len(lp)}")
+        else:
+            inner_ok = all(k == ("sym", f"{l.target[0]}∈{l.loopid}") for l in lp for bp in l.paths for k in bucket_keys(bp))
+            ctx.check(len(lp) == 1 and not top and inner_ok, f, f.node, "a hook with a time list is entered under exactly the listed times", "for t in event_hook.time: events_dict[name][t]", f"{len(lp)} loop(s) over the list, keys outside the loop={[short(k) for k in top]}")
     g = ctx.func("EventHook.__init__")
     cases = []
     for p in ctx.paths(g.qualname):
